@@ -116,6 +116,9 @@ def run(ctx):
     for b in bads:
         rec = b['record']
         ctx.violation('%s: %s' % (rec['ev'], b['clause']), json.dumps(rec, default=tlc._np)[:1500], {'file': b['file'], 'line': b['l']})
+    from .. import umbrella
+    import atomman as _am
+    umbrella.run(ctx, _am, 'C05')      # cross-module histories of spec/Atomman.tla (only the steps this property owns are reported here)
     ctx.sample({'kind': 'C->S wrap record', **[r_ for r_ in recs if r_['ev'] == 'wrap' and len(r_['before']) <= 3][0]})
     ctx.sample({'kind': 'C->S normalize record', **[r_ for r_ in recs if r_['ev'] == 'normalize' and len(r_['pos']) <= 2][0]})
 
